@@ -63,6 +63,8 @@ def observe_impl(case, out):
     if out["parse"][0] != "ok":
         return {"parse_err": vlib.norm(out["parse"])}
     o = {"events": canon_events(out["events"])}
+    # background system commands are observed through the marker files they create (see the harness)
+    o["bg"] = sorted("touch %s/%s" % (case["bgdir"], n) for n in out.get("bg_markers", [])) if case.get("bgdir") else []
     if case["mode"] == "each":
         o["results"] = [drop_detail(r) for r in vlib.norm(out["results"])]
         o["details"] = [r[4] if r and r[0] == "err" and len(r) > 4 else None for r in out["results"]]
@@ -77,7 +79,8 @@ def observe_model(case, mout):
         return {"panic": "model predicts a panic of the implementation"}
     if not isinstance(mout, list):
         return {"model_error": mout}
-    o = {"events": canon_events(mout[1])}
+    evs = canon_events(mout[1])
+    o = {"events": [e for e in evs if e[0] != "bg"], "bg": sorted(e[1] for e in evs if e[0] == "bg")}
     if case["mode"] == "each":
         o["results"] = mout[0]
     else:
